@@ -96,3 +96,61 @@ Definition inst_wf_b (v : val) : bool :=
       end
   | _ => false
   end.
+
+(* ---------- C04 on the regenerated instance ---------- *)
+Require Import Denote DenoteProofs.
+From Coq Require Import Lia.
+
+Lemma tassoc_in k (l : list (string * (N * flist))) v : tassoc k l = Some v -> In (k, v) l.
+Proof.
+  induction l as [|[k' v'] l IH]; cbn [tassoc]; [discriminate|].
+  destruct (String.eqb_spec k k') as [->|_].
+  - intros H; injection H as ->. left; reflexivity.
+  - intros H. right. exact (IH H).
+Qed.
+
+Lemma inst_tags_not_any : forallb (fun p => negb (N.eqb (fst (snd p)) ANY_TAG)) the_type_table = true.
+Proof. vm_compute. reflexivity. Qed.
+
+(* for every struct type of the current tree and every byte string: Decode accepts iff the
+   specification accepts, with the same value and the same byte count *)
+Theorem inst_decoder_is_spec ty bs v n st' :
+  inst_dec_top ty bs = Ok (v, n, st') <->
+  inst_spec_decode ty bs = Some (v, n) /\ st' = {| rest := skipn (N.to_nat n) bs; last := 0%N |}.
+Proof.
+  unfold inst_dec_top, inst_spec_decode, inst_T. destruct (tassoc ty the_type_table) as [[tag fl]|] eqn:E.
+  - apply decoder_is_spec. apply tassoc_in in E.
+    pose proof (proj1 (forallb_forall _ _) inst_tags_not_any _ E) as H. cbn [fst snd] in H.
+    intros ->. rewrite N.eqb_refl in H. discriminate.
+  - split; [discriminate|]. intros [H _]. discriminate.
+Qed.
+
+(* non-vacuity, both directions: a RequestHeader that spells out a zero-valued optional field
+   (Maximum Response Size = 0) is a valid encoding: accepted, denoting the same value as the canonical
+   encoding without it; variants that are not well-formed are rejected *)
+Definition hdr_int (t : N) (z : Z) : bytes := match enc_prim t KInt (VInt z) with Some b => b | None => [] end.
+Definition hdr_version : bytes := wrap 4325481 (hdr_int 4325482 1 ++ hdr_int 4325483 4)%list.
+Definition hdr_canonical : bytes := wrap 4325495 (hdr_version ++ hdr_int 4325389 1)%list.
+Definition hdr_noncanonical : bytes := wrap 4325495 (hdr_version ++ hdr_int 4325456 0 ++ hdr_int 4325389 1)%list.
+Definition hdr_no_batchcount : bytes := wrap 4325495 hdr_version.
+Definition hdr_trailing : bytes := wrap 4325495 (hdr_version ++ hdr_int 4325389 1 ++ hdr_int 4325389 1)%list.
+Definition hdr_understated : bytes := (header 4325495 tc_structure 32 ++ hdr_version ++ hdr_int 4325389 1)%list.
+Definition hdr_bad_bool : bytes :=
+  wrap 4325495 (hdr_version ++ header 4325383 6 8 ++ be 8 2 ++ hdr_int 4325389 1)%list.
+
+Definition hdr_value : val :=
+  Eval vm_compute in match inst_spec_decode "RequestHeader" hdr_canonical with Some (v, _) => v | None => VNil end.
+
+Example noncanonical_accepted :
+  inst_spec_decode "RequestHeader" hdr_noncanonical = Some (hdr_value, blen hdr_noncanonical) /\
+  inst_spec_decode "RequestHeader" hdr_canonical = Some (hdr_value, blen hdr_canonical) /\
+  inst_enc_top hdr_value = Some hdr_canonical /\ hdr_noncanonical <> hdr_canonical.
+Proof. repeat split; try (vm_compute; reflexivity). vm_compute. discriminate. Qed.
+
+Example malformed_rejected :
+  inst_spec_decode "RequestHeader" hdr_no_batchcount = None /\     (* required field absent *)
+  inst_spec_decode "RequestHeader" hdr_trailing = None /\          (* item left over in the structure *)
+  inst_spec_decode "RequestHeader" hdr_understated = None /\       (* length understates the content *)
+  inst_spec_decode "RequestHeader" hdr_bad_bool = None /\          (* Boolean that is neither 0 nor 1 *)
+  inst_spec_decode "RequestHeader" (firstn 40 hdr_canonical) = None.  (* truncation *)
+Proof. vm_compute. repeat split; reflexivity. Qed.
